@@ -1,4 +1,4 @@
 SPECIFICATION Spec
-CONSTANTS MaxBad = 1 Dims = {1,2}
+CONSTANTS MaxBad = 1 Dims = {1,2,3}
 INVARIANTS AllowedNonEmpty Emit
 CHECK_DEADLOCK FALSE
